@@ -18,7 +18,7 @@ from gen.cgen import Gen
 
 
 def opts(mode):
-    return "2,1,0,%d,%s" % (mode, "d" * 31)
+    return mode if isinstance(mode, str) else "2,1,0,%d,%s" % (mode, "d" * 31)
 
 
 def run(ctx):
@@ -32,6 +32,10 @@ def run(ctx):
             continue
         for mode in (2, 3):
             cases.append((mode, cat, t))
+    from gen.snippets import extension_corpus
+    for cat, t in extension_corpus():
+        for mode in (2, 3):
+            cases.append(("2,1,0,%d,%s" % (mode, "1" * 31), cat, t))
     n = 300 if ctx.quick else 6000
     for i in range(n):
         g = Gen(random.Random(rng.randrange(1 << 30)), typed=(i % 3 != 0), gnu=(i % 2 == 0), kr=(i % 5 == 0), maxdepth=3 + i % 3)
@@ -113,7 +117,7 @@ def run(ctx):
         if not r.startswith("ok"):
             nviol += 1
             if nviol <= 3:
-                ctx.report("lossy:" + text[:80], "%r (mode %d, category %s) parses without diagnostics but does not survive unparsing: tokens=%s reparse=%s shape=%s"
+                ctx.report("lossy:" + text[:80], "%r (mode %s, category %s) parses without diagnostics but does not survive unparsing: tokens=%s reparse=%s shape=%s"
                            % (text[:400], mode, cat, decode_diff(f.get("tokens", "?")), f.get("reparse"), f.get("shape")),
                            {"component": "roundtrip", "case": line, "text": text, "answer": r[:600]})
             continue
